@@ -90,3 +90,32 @@ func TestWitnessDeco(t *testing.T) {
 	write("box-relayout-reduces-space-for-all-children", "a 20px block, then a box with border-bottom:12px holding blocks of 20, 20, 36 and 4px: the content fits the 104px page (100) and the border does not, the box is laid out again with 12px less room for every child, and the 36px child (ending at 96) is pushed to the next page although it fits and the break after it leaves no border on this page",
 		In{Rules: base, Items: []Item{leaf("u0", 20), {Kind: "box", ID: "u1", BorB: 12, Kids: []Item{leaf("u2", 20), leaf("u3", 20), leaf("u4", 36), leaf("u5", 4)}}, leaf("u6", 20)}})
 }
+
+// TestWitnessFloat32 writes the hand-minimised witness of the open finding about the float32
+// rounding of the page bottom (C12_WITNESS_DIR=findings/C12).
+func TestWitnessFloat32(t *testing.T) {
+	dir := os.Getenv("C12_WITNESS_DIR")
+	if dir == "" {
+		t.Skip()
+	}
+	// sheet 276 x 232, margin-top 5% = 11.6px, margin-bottom 10% = 23.2px: content height 197.2, page bottom 208.8
+	base := []Rule{{Origin: "author", Decls: []Decl{{P: "size", V: []int{276, 232}}, {P: "margin", V: []int{0, 0, 0, 0}, T: []string{"5%", "20px", "10%", "20px"}}}}}
+	leaf := func(id string, h int) Item { return Item{Kind: "leaf", ID: id, H: h} }
+	write := func(name, msg string, in In) {
+		in.Kind, in.FS = "witness", 10
+		in.buildDoc(noLegacy)
+		res := check(mustJSON(in))
+		out := map[string]any{"property": "C12", "msg": msg, "observed": res.Sig + ": " + res.Msg, "input": in}
+		b, _ := json.MarshalIndent(out, "", " ")
+		if err := os.WriteFile(dir+"/"+name+".json", b, 0o644); err != nil {
+			t.Fatal(err)
+		}
+		fmt.Println(name, "->", res.Verdict, res.Sig, res.Msg)
+	}
+	u5 := Item{Kind: "para", ID: "u5", N: 2, LH: 20, BB: "page"}
+	write("page-bottom-float32-rounding", "page content box from y=11.6 to y=208.8 (margin-top 5%, margin-bottom 10% of a 232px sheet); a 36px block, then a div holding blocks of 28, 20 and 40px and a paragraph with break-before:page: the three blocks fit after the first one (they end at y=135.6) but the div is moved whole to the second page; the same document with margins of 12px and 23px keeps them on the first page",
+		In{Rules: base, Items: []Item{leaf("u0", 36), {Kind: "box", ID: "u1", Kids: []Item{leaf("u2", 28), leaf("u3", 20), leaf("u4", 40), u5}}}})
+	if os.Getenv("C12_EXTRA") != "" {
+		write("x-natural", "natural split", In{Rules: base, Items: []Item{leaf("u0", 36), {Kind: "para", ID: "u1", N: 12, LH: 20, Orph: 1, Wid: 1}}})
+	}
+}
